@@ -18,6 +18,12 @@ Next == /\ l <= Len(Rec)
              [] ev.kind = "badoptions" ->
                 /\ IF ev.rc # 0 THEN TRUE ELSE Why("refused", "non-zero", ev.rc)
                 /\ IF ~ev.outputs_exist THEN TRUE ELSE Why("no_output", FALSE, ev.outputs_exist)
+             \* an invocation the documentation declares neither valid nor invalid (a reference statistics file whose extension is json / toml in another
+             \* spelling): it is either refused like an invalid one (non-zero status, no panic, nothing written) or processed like a valid one (status 0 / -E value)
+             [] ev.kind = "borderline" ->
+                IF \/ ev.rc # 0 /\ ev.rc < 128 /\ ~ev.panicked /\ ~ev.outputs_exist
+                   \/ ev.rc \in {0, cfg.E} /\ ~ev.panicked
+                THEN TRUE ELSE Why("refused_or_processed", "refused before any output, or processed", [rc |-> ev.rc, outputs |-> ev.outputs_exist, panicked |-> ev.panicked])
              \* unreadable or unrecognisable input: non-zero status
              [] ev.kind = "badinput" -> IF ev.rc # 0 THEN TRUE ELSE Why("refused", "non-zero", ev.rc)
         /\ l' = l + 1
